@@ -1,6 +1,7 @@
 import SaramaVerif.Driver.Util
 import SaramaVerif.Model.CodecMachine
 import SaramaVerif.Model.CodecRecords
+import SaramaVerif.Model.CodecSchemas
 /-
   Line-protocol driver for C09 (see harness/cmd/c09/main.go for the producer of the lines).
 
@@ -8,11 +9,12 @@ import SaramaVerif.Model.CodecRecords
     dec  <hex> <dtok>…          → <out>… off=<n> | … ERR      the call sequence of a decode() on these bytes
     rec  <record>               → <prepLength> <hex>
     drec <hex>                  → ok <record> rest=<n> | err
-    batch <fields> cz=<hex|-> <record>…   → <prepLength> <hex> <hex of the uncompressed records>
+    batch <fields> lv=<level> cz=<hex|-> <record>…   → <prepLength> <hex> <hex of the uncompressed records>
     dbatch cz=<comp>:<raw> <hex>          → ok <fields> <record>… rest=<n> | partial | err
     mset cz=<raw>:<comp>,… <block>…       → <hex>
     dmset cz=<comp>:<raw>,… <hex>         → ok p=<0|1> o=<0|1> rest=<n> <block>… | err
     kind <hex>                  → legacy | default | none
+    schema <Body> <ver> <tok>…  → <size> <hex> rt=ok   (schema interpreters size / enc / dec on the parsed value)
 -/
 namespace Driver.C09
 open Model.Codec Driver
@@ -49,7 +51,7 @@ def parseTok (t : String) : Option Tok :=
   | "cal" => some (.cArrLen (int! v))
   | "by" => some (.prim .bytes (bytesVal v))
   | "vb" => some (.prim .vbytes (bytesVal v))
-  | "cb" => some (.prim .cbytes (bytesVal v))
+  | "cb" => some (.prim .cbytes (.bytes (if v = "N" then [] else hexBytes v)))
   | "rb" => some (.prim (.raw (hexBytes v).length) (.bytes (hexBytes v)))
   | "st" => some (.prim .str (bytesVal v))
   | "ns" => some (.prim .nstr (bytesVal v))
@@ -174,10 +176,10 @@ def lookupLib (tbl : List (Bytes × Bytes)) (x : Bytes) : Option Bytes :=
 def compLib (tbl : List (Bytes × Bytes)) : Int → Bytes → Bytes := fun _ x => (lookupLib tbl x).getD []
 def decompLib (tbl : List (Bytes × Bytes)) : Int → Bytes → Option Bytes := fun _ x => lookupLib tbl x
 
-/-- `off;magic;codec;lat;ts;key;value` -/
+/-- `off;magic;codec;level;lat;ts;key;value` (the compression level is not part of the model) -/
 def parseBlock (s : String) : Option Block :=
   match s.splitOn ";" with
-  | [off, magic, codec, lat, ts, k, v] =>
+  | [off, magic, codec, _, lat, ts, k, v] =>
     some (int! off, { magic := int! magic, codec := int! codec, logAppendTime := lat = "1", timestamp := int! ts,
                       key := optBytes k, value := optBytes v })
   | _ => none
@@ -187,6 +189,29 @@ def showBlock (b : Block) : String :=
     showOptBytes b.2.key, showOptBytes b.2.value]
 
 def cz (t : String) : String := (splitKV t '=').2
+
+partial def valEq : Val → Val → Bool
+  | .int a, .int b => a == b
+  | .bytes a, .bytes b => a == b
+  | .null, .null => true
+  | .unit, .unit => true
+  | .pair a b, .pair c d => valEq a c && valEq b d
+  | .list as, .list bs => as.length == bs.length && (as.zip bs).all (fun ab => valEq ab.1 ab.2)
+  | _, _ => false
+
+/-- `schema`: the recorded calls, read as a value of the body's schema, through `size` / `enc` / `dec` -/
+def schemaAnswer (name : String) (ver : Nat) (toks : List Tok) : String :=
+  match bodySchema name with
+  | none => "no-schema"
+  | some f =>
+    match parseToks f ver toks with
+    | some (v, []) =>
+      let bytes := enc f ver v
+      let rt := WT f ver v && (match dec f ver bytes with
+                               | some (v', []) => valEq v v'
+                               | _ => false)
+      s!"{size f ver v} {showHex bytes} rt={if rt then "ok" else "FAIL"}"
+    | _ => "schema-mismatch"
 
 def step (_ : Unit) (t : List String) : Unit × String :=
   match t with
@@ -211,7 +236,7 @@ def step (_ : Unit) (t : List String) : Unit × String :=
     (match decRecord (hexBytes hex) with
      | none => ((), "err")
      | some (r, rest) => ((), s!"ok {showRecord r} rest={rest.length}"))
-  | "batch" :: hdr :: c :: rs =>
+  | "batch" :: hdr :: _ :: c :: rs =>
     (match parseAll parseRecord rs with
      | none => ((), "bad-op")
      | some recs =>
@@ -239,6 +264,10 @@ def step (_ : Unit) (t : List String) : Unit × String :=
      | some r =>
        ((), s!"ok p={b01 r.partialTrailing} o={b01 r.overflow} rest={r.rest.length} " ++
             " ".intercalate (r.blocks.map showBlock)))
+  | "schema" :: name :: ver :: ts =>
+    (match parseAll parseTok ts with
+     | none => ((), "bad-op")
+     | some toks => ((), schemaAnswer name (nat! ver) toks))
   | ["kind", hex] =>
     ((), match recordsKind (hexBytes hex) with
          | none => "none"
